@@ -1,6 +1,6 @@
 From Coq Require Import List NArith Bool.
-From V.gen Require Consts.
-From V.C04 Require Import Model Proofs.
+From V.gen Require Consts C04Tables.
+From V.C04 Require Import Model Proofs Codec CodecProofs Carrier CarrierProofs Yamux YamuxProofs WebRtc WebRtcProofs.
 Import ListNotations.
 Open Scope N_scope.
 From V.C04 Require Import Properties.
@@ -126,3 +126,117 @@ Check (C04_flush_all_fuel_adequate :
   flush_all fuel script w sent0 np = flush_all fuel' script w sent0 np).
 Check (C04_varint_roundtrip :
   forall n, n < USIZE_MOD -> read_payload_size (varint_enc n) = RpsOk n (lenN (varint_enc n))).
+Check (C04_codec_roundtrip :
+  forall (cd : tcodec) (msgs : list (list N)) (chunks : list (list N)) (tail : list N) rs dl' src',
+  cd_ok cd -> CFits cd msgs -> concat chunks ++ tail = twire cd msgs ->
+  feed cd None [] chunks = (rs, dl', src') ->
+  existsb is_derr rs = false /\
+  exists rest, msgs = dframes rs ++ rest /\ (chunks <> [] -> tail = [] -> rest = [] /\ src' = [])).
+Check (C04_codec_encode_refuses :
+  (forall mx m, mx < lenN m -> tencode (TUvi mx) m = (EDenied, [])) /\
+  (forall n m, lenN m <> n -> tencode (TIdentity n) m = (EInvalid, [])) /\
+  (forall cd m r out, tencode cd m = (r, out) -> r <> EOk -> out = []) /\
+  (forall cd msgs, twire cd msgs = twire cd (filter (tfits cd) msgs))).
+Check (C04_codec_decode_rejects :
+  (forall mx n x, mx < n -> n < USIZE_MOD -> tdecode (TUvi mx) None (varint_enc n ++ x) = (DDenied, None, x)) /\
+  (forall mx src, match read_payload_size src with
+                  | RpsDecodeErr | RpsOverflow => tdecode (TUvi mx) None src = (DOther, None, src)
+                  | _ => True
+                  end) /\
+  (forall mx dl src r dl' src' k,
+     (forall k0, dl = Some k0 -> k0 <= mx) -> tdecode (TUvi mx) dl src = (r, dl', src') -> dl' = Some k -> k <= mx)).
+Check (C04_codec_same_wire :
+  forall (cd : tcodec) (m : list N), cd_ok cd ->
+  tfits cd m = fitsb (codec_of cd) m /\
+  (tfits cd m = true -> tencode cd m = (EOk, frame (codec_of cd) m))).
+Check (C04_substream_to_codec :
+  forall (bp : N) (cd : tcodec) (script : list wev) (ops : list op) rs s' (chunks : list (list N)) rs' dl src,
+  cd_ok cd -> Forall small_op ops ->
+  run_ops bp (codec_of cd) (init_sys script) ops = (rs, s') -> Forall2 good ops rs ->
+  concat chunks = sent s' ->
+  feed cd None [] chunks = (rs', dl, src) ->
+  existsb is_derr rs' = false /\
+  exists rest, accepted (codec_of cd) ops = dframes rs' ++ rest /\
+               (chunks <> [] -> qbytes (ws s') = [] -> rest = [] /\ src = [])).
+Check (C04_codec_to_substream :
+  forall (cd : tcodec) (msgs : list (list N)) (wire tail : list N) (script : list rdev) (polls : nat)
+         outs st' wire' script',
+  cd_ok cd -> CFits cd msgs -> wire ++ tail = twire cd msgs ->
+  run_reader polls (codec_of cd) (init_r (codec_of cd)) wire script = (outs, st', wire', script') ->
+  ~ In RPanic outs /\ ~ In RFail outs /\
+  exists rest, msgs = frames_of outs ++ rest /\ (tail = [] -> wire' = [] -> rest = [])).
+Check (C04_carrier_refines_script :
+  forall (S E : Type) (K : carrier S) (env : S -> E -> S) (fuel : nat) (bp : N) (c : codec)
+         (ops : list (gop E)) (g : @gsys S) rs g' L ab,
+  grun K env fuel bp c g ops = Some (rs, g', L, ab) ->
+  forall T, (ab = true -> T = []) ->
+  run_ops bp c (mkSys (g_ws g) (g_sent g) (L ++ T) (g_shut g)) (firstn (length rs) (gops ops)) =
+  (rs, mkSys (g_ws g') (g_sent g') T (g_shut g'))).
+Check (C04_carrier_poll_total :
+  forall (S : Type) (K : carrier S) (s : S) (w : wstate) (sent : list N),
+  gflush K (flush_fuel w) s w sent <> None).
+Check (C04_carrier_in_order :
+  forall (S E : Type) (K : carrier S) (env : S -> E -> S) (fuel : nat) (bp : N) (c : codec)
+         (ops : list (gop E)) (s0 : S) rs g' L ab,
+  grun K env fuel bp c (ginit s0) ops = Some (rs, g', L, ab) ->
+  Forall2 good (firstn (length rs) (gops ops)) rs ->
+  pbytes (g_ws g') = lenN (qbytes (g_ws g')) /\
+  g_sent g' ++ qbytes (g_ws g') = wire_of c (accepted c (firstn (length rs) (gops ops)))).
+Check (C04_carrier_complete :
+  forall (S : Type) (K : carrier S),
+  (forall fuel s w sent w' sent' s' L,
+     gflush K fuel s w sent = Some (WOk, w', sent', s', L) -> pbytes w = lenN (qbytes w) ->
+     sent' = sent ++ qbytes w /\ qbytes w' = [] /\ frames w' = [] /\ curf w' = None /\ pbytes w' = 0) /\
+  (forall fuel c s w m sent np w' sent' s' L ab,
+     gsend_framed K fuel c s w m sent = Some (WOk, np, w', sent', s', L, ab) -> pbytes w = lenN (qbytes w) ->
+     sent' = sent ++ qbytes w ++ frame c m /\ qbytes w' = [] /\ fitsb c m = true)).
+Check (C04_yamux_write_discipline :
+  forall (s : ystate) (len : N) a s',
+  y_write s len = (a, s') ->
+  y_wakes s' = y_wakes s /\
+  match a with
+  | CAcc k => k <= len /\ k <= y_credit s /\ k <= Y_SPLIT /\ (0 < len -> 0 < k) /\
+              y_credit s' + k = y_credit s /\ y_open s' = true /\ y_open s = true /\ y_out s' = y_out s ++ [k]
+  | CPend => s' = s /\ (y_credit s = 0 \/ Y_PARK <= y_q s)
+  | CErr => s' = s /\ y_open s = false
+  end).
+Check (C04_yamux_credit_respected :
+  forall (fuel : nat) (bp : N) (c : codec) (ops : list (gop yenv)) (g : @gsys ystate) rs g' L ab,
+  grun YK y_apply fuel bp c g ops = Some (rs, g', L, ab) ->
+  lenN (g_sent g') + y_credit (g_car g') + grants (g_car g') <=
+  lenN (g_sent g) + y_credit (g_car g) + grants (g_car g) + genv_grants ops ye_grant).
+Check (C04_yamux_stalls_only_for_credit :
+  forall (fuel : nat) (bp : N) (c : codec) (ops : list (gop yenv)) (g : @gsys ystate) rs g' L ab,
+  grun YK y_apply fuel bp c g ops = Some (rs, g', L, ab) ->
+  yclean (g_car g) -> genv_all (fun e => ye_rst e = false) ops ->
+  Forall (fun r => fst r <> WIo /\ fst r <> WClosed) rs /\ (ab = true -> ystalled (g_car g'))).
+Check (C04_yamux_reader_refines_script :
+  forall (fuel : nat) (c : codec) (st : rstate) (rbuf : list N) (fin : bool) o st' rbuf',
+  (length rbuf < fuel)%nat ->
+  ypoll fuel c st rbuf fin = (o, st', rbuf') ->
+  poll_next c st rbuf (yscript fuel c st rbuf fin) = (o, st', rbuf', [])).
+Check (C04_yamux_end_to_end :
+  forall (fuel : nat) (bp : N) (c : codec) (wakes : list yenv) (sched : list ystep) (y : ysys),
+  Forall small_step sched ->
+  yrun fuel bp c (ys_init c wakes) sched = Some y -> ys_bad y = false ->
+  ~ In RPanic (ys_outs y) /\ ~ In RFail (ys_outs y) /\
+  exists rest, accepted c (ys_ops y) = frames_of (ys_outs y) ++ rest /\
+    (c <> Identity 0 -> qbytes (g_ws (ys_g y)) = [] -> ys_arr y = lenN (g_sent (ys_g y)) -> ys_rbuf y = [] -> rest = [])).
+Check (C04_webrtc_write_discipline :
+  forall (s : rtc) (len : N) a s',
+  rtc_write s len = (a, s') ->
+  match a with
+  | CAcc k => k <= len /\ k <= RTC_MAX_FRAME /\ (0 < len -> 0 < k) /\ r_out s' = r_out s ++ [k] /\
+              r_q s' = r_q s + 1 /\ r_q s < RTC_CAP
+  | CPend => s' = s /\ RTC_CAP <= r_q s
+  | CErr => r_out s' = r_out s /\ r_q s' = r_q s /\ (r_tx s = false \/ r_rxclosed s = true)
+  end).
+Check (C04_webrtc_reader_refines_script :
+  (forall s p fin, rr_ok s -> rr_reset s = false -> rr_eof s = false -> lenN (rr_inq s) < RTC_CAP ->
+                   lenN p <= RTC_MAX_FRAME ->
+                   rr_ok (rr_message s p fin) /\ rr_bytes (rr_message s p fin) = rr_bytes s ++ p /\
+                   rr_reset (rr_message s p fin) = false) /\
+  (forall fuel c st s o st' s',
+     rr_ok s -> (length (rr_bytes s) < fuel)%nat ->
+     wpoll fuel c st s = (o, st', s') ->
+     rr_ok s' /\ poll_next c st (rr_bytes s) (rtc_script fuel c st s) = (o, st', rr_bytes s', []))).
